@@ -341,6 +341,10 @@ pub struct RunSpec {
     pub sched: Sched,
     #[serde(default)]
     pub stall: Option<Stall>,
+    /// this many extra interpolators (copies of the slots' configurations) are alive during the
+    /// run: pools, registries and per-instance ids with small capacities need company to show
+    #[serde(default)]
+    pub ballast: usize,
 }
 
 impl RunSpec {
